@@ -69,11 +69,11 @@ class BuckGophermapHandler(BaseHandler):
                         args[1] = args[0][1:]  # Copy display string to selector
 
                     selector = args[1]
-                    if selector[0] != "/" and selector[0:4] != "URL:":  # Relative link
+                    if selector[:1] != "/" and selector[0:4] != "URL:":  # Relative link
                         selector = selectorbase + "/" + selector
 
                     entry = gopherentry.GopherEntry(selector, self.config)
-                    entry.type = args[0][0]
+                    entry.type = args[0][:1] or "i"
                     entry.name = args[0][1:]
 
                     if len(args) >= 3 and len(args[2]):
